@@ -1491,8 +1491,16 @@ func PowTerm(x, y *Term) *Term {
 				return RDiv(RealOfInt(1), PowTerm(x, RealLit(new(big.Rat).Neg(r))))
 			}
 		}
-		if r.Cmp(big.NewRat(1, 2)) == 0 {
+		half := big.NewRat(1, 2)
+		switch {
+		case r.Cmp(half) == 0:
 			return App("sqrt", SReal, x)
+		case r.Cmp(big.NewRat(-1, 2)) == 0:
+			return RDiv(RealOfInt(1), App("sqrt", SReal, x))
+		case r.Cmp(big.NewRat(3, 2)) == 0:
+			return Mul(x, App("sqrt", SReal, x))
+		case r.Cmp(big.NewRat(-3, 2)) == 0:
+			return RDiv(RealOfInt(1), Mul(x, App("sqrt", SReal, x)))
 		}
 	}
 	return App("pow", SReal, x, y)
